@@ -27,6 +27,7 @@ func NewSeries(l labels.Labels, s []Sample) *Series {
 
 func (s *Series) Labels() labels.Labels { return s.L }
 func (s *Series) Iterator() chunkenc.Iterator {
+	sym.Yield() // storage callbacks are scheduling points (real storages do I/O here)
 	it := NewListIter(s.S)
 	it.FailAt, it.FailErr, it.Panic = s.FailAt, s.FailErr, s.Panic
 	s.Iters = append(s.Iters, it)
